@@ -442,6 +442,12 @@ pub fn replay_in_child(id: &str, path: &str, watchdog: u64) -> i32 {
     cleanup_scratch();
     use std::os::unix::process::ExitStatusExt;
     let violation = |sig: String, detail: String| -> i32 {
+        if std::env::var("VERIF_REPLAY_TOLERATE_KNOWN").is_ok() {
+            if let Some(k) = KnownFindings::load().for_property(id).iter().find(|k| k.signature == sig) {
+                println!("KNOWN-FINDING: property={id} {}", k.text);
+                return 0;
+            }
+        }
         println!("VIOLATION property={id} replay={path}");
         println!("  signature: {sig}");
         println!("  detail: {}", truncate(&detail, 3000));
